@@ -48,6 +48,8 @@ pub fn run(args: &Args, rep: &mut Report) {
         numbers.truncate(nreq);
         let cancel: Vec<bool> = (0..nreq).map(|_| rng.gen_bool(0.2)).collect();
         let seed = rng.gen::<u64>();
+        let starved: Mutex<Vec<String>> = Mutex::default();
+        let (quiescent_probes, quiescent_waiting) = (AtomicU64::new(0), AtomicU64::new(0));
         let finished = rt.block_on(async {
             let root = ctx::root();
             let q = FetchQueue::default();
@@ -55,6 +57,7 @@ pub fn run(args: &Args, rep: &mut Report) {
             let remaining = AtomicU64::new(nreq as u64);
             let announce: Vec<sync::watch::Sender<BlockStoreState>> = (0..npeers).map(|_| sync::watch::channel(state(0, None)).0).collect();
             let (q, log, healed, remaining, announce, numbers, cancel) = (&q, &log, &healed, &remaining, &announce, &numbers, &cancel);
+            let (starved, quiescent_probes, quiescent_waiting) = (&starved, &quiescent_probes, &quiescent_waiting);
             let fut = async { scope::run!(&root, |ctx, s| async move {
                 // peers
                 for p in 0..npeers {
@@ -135,6 +138,32 @@ pub fn run(args: &Args, rep: &mut Report) {
                         tokio::task::yield_now().await;
                     }
                 }
+                // quiescence probe (deterministic runtime only): once nothing moves any more, the lowest requested block must not be
+                // one that an idle peer (inside accept_block) has announced - that request would be starving, not merely waiting
+                if !multi {
+                    let (mut stable, mut last_len) = (0, log.lock().unwrap().len());
+                    for _ in 0..20_000 {
+                        tokio::task::yield_now().await;
+                        let l = log.lock().unwrap().len();
+                        if l == last_len { stable += 1; } else { stable = 0; last_len = l; }
+                        if stable >= 100 { break; }
+                    }
+                    if stable >= 100 {
+                        quiescent_probes.fetch_add(1, Ordering::SeqCst);
+                        if let Some(lowest) = q.current_blocks().first().copied() {
+                            let evs = log.lock().unwrap();
+                            for p in 0..npeers {
+                                let idle = matches!(evs.iter().rev().find(|e| matches!(e, Ev::AcceptCall { peer } | Ev::Accepted { peer, .. } if *peer == p)), Some(Ev::AcceptCall { .. }));
+                                let has = evs.iter().rev().find_map(|e| if let Ev::Announced { peer, range } = e { if *peer == p { Some(*range) } else { None } } else { None })
+                                    .map(|(f, l)| l.is_some_and(|l| f <= lowest && lowest <= l)).unwrap_or(false);
+                                if idle && has {
+                                    starved.lock().unwrap().push(format!("block {lowest} is the lowest requested block, peer {p} announced it and sits idle in accept_block, and nothing moves any more"));
+                                }
+                            }
+                            if starved.lock().unwrap().is_empty() { quiescent_waiting.fetch_add(1, Ordering::SeqCst); }
+                        }
+                    }
+                }
                 healed.store(true, Ordering::SeqCst);
                 for (p, a) in announce.iter().enumerate() {
                     log.lock().unwrap().push(Ev::Announced { peer: p, range: (0, Some(100)) });
@@ -161,6 +190,11 @@ pub fn run(args: &Args, rep: &mut Report) {
             rep.finish_and_exit();
         }
         drop(rt);
+        rep.add("quiescence_probes", quiescent_probes.load(Ordering::SeqCst));
+        rep.add("quiescence_probes_with_requests_legitimately_waiting", quiescent_waiting.load(Ordering::SeqCst));
+        for d in starved.lock().unwrap().iter().take(1) {
+            rep.violation("request-starved||idle-peer-has-lowest-block".to_string(), d.clone(), replay.clone());
+        }
         // per-block checks
         let mut holder: std::collections::BTreeMap<u64, usize> = Default::default();
         let mut done: std::collections::BTreeSet<u64> = Default::default();
